@@ -210,9 +210,21 @@ def plan_C05(b, tier, seed):
     return [A_msm(b, c, "acc", 5, 8) for c in ("sw13_1_4", "te13_1_7", "sw13_0_2", "sw19_0_8", "te29_1_3")] + \
            [A_msm(b, c, "oneshot", 0, 8) for c in SW_TOY + TE_TOY + ["sw_f7_2_a0", "sw_f7_2_a1"]]
 
-PLANS = {"C05": plan_C05, "C09": plan_C09, "C10": plan_C10, "C11": plan_C11, "C19": plan_C19, "C07": plan_C07, "C08": plan_C08, "C03": plan_C03, "C04": plan_C04, "C12": plan_C12, "C01": plan_C01, "C02": plan_C02, "C15": plan_C15}
+def A_mle(b, cfg, mode, nv, workers=4):
+    return lambda: toy_replay(b, "mle", "MC_Mle", cfg, mode, workers=workers, env_extra={"NV": str(nv)}, label="A:mle:%s:%s:nv%d" % (cfg, mode, nv))
+def plan_C17(b, tier, seed):
+    if tier == "quick":
+        return [A_mle(b, "f3", "arith", 0), A_mle(b, "f3", "arith", 1), A_mle(b, "f3", "arith", 2, 6), A_mle(b, "f5", "arith", 1),
+                A_mle(b, "f3", "unary", 0), A_mle(b, "f3", "unary", 1), A_mle(b, "f3", "unary", 2), A_mle(b, "f3", "unary", 3, 8),
+                A_mle(b, "f5", "unary", 2, 6), A_mle(b, "f7", "unary", 1), A_mle(b, "f3", "mv", 0), A_mle(b, "f5", "mv", 0)]
+    return [A_mle(b, "f3", "arith", n, 8) for n in (0, 1, 2)] + [A_mle(b, "f5", "arith", n, 8) for n in (0, 1)] + [A_mle(b, "f7", "arith", 1, 8)] + \
+           [A_mle(b, "f3", "unary", n, 8) for n in (0, 1, 2, 3)] + [A_mle(b, "f5", "unary", n, 8) for n in (0, 1, 2)] + [A_mle(b, "f7", "unary", n, 8) for n in (0, 1, 2)] + \
+           [A_mle(b, c, "mv", 0, 8) for c in ("f3", "f5", "f7", "f13")]
+
+PLANS = {"C17": plan_C17, "C05": plan_C05, "C09": plan_C09, "C10": plan_C10, "C11": plan_C11, "C19": plan_C19, "C07": plan_C07, "C08": plan_C08, "C03": plan_C03, "C04": plan_C04, "C12": plan_C12, "C01": plan_C01, "C02": plan_C02, "C15": plan_C15}
 
 RULES = {
+ "C17": "A: MleMachine over toy fields: ALL tables for 0..3 variables over F_3 (6561 tables), 0..2 over F_5, 0..1 over F_7; all ordered pairs of tables x add/sub/scaled add/eq/concat; every table x evaluation at EVERY point of F_p^n, fix_variables for every partial assignment of every length, every relabel window (also those touching the last variable), neg, scaling by {0,1,2,-1}, index, to_evaluations; every operation in the dense AND the sparse form; multivariate sparse polynomials: every term list of <= 2 terms over 2 variables (duplicate monomials, zero coefficients, unordered variables) x every point for evaluate / neg and selected points for add / sub",
  "C05": "A: MsmMachine over Z_r explored by TLC with the conservation invariant (result + buffered = everything added) on every state; EVERY history New(kind, cap); Add^n; Finalize with n <= LEN over bases {O, G, 2G, -G} (repeated and identity bases) x scalars {0, 1, r-1} x every capacity 0..LEN+1 x {Chunked, HashMap} is replayed on the real accumulators over toy curves; every pair of base/scalar vectors of length <= 3 (mismatched lengths included) and patterned vectors of length 31, 32, 33, 100 through msm (checked), msm_unchecked, msm_bigint, msm_chunks and - through the verification hook - both private bucket methods (the plain one is otherwise unreachable)",
  "C09": "A: for toy curves over fields with 4, 6, 7 and 8-bit moduli (so 4, 2, 1, 0 spare bits in the top byte; 2-bit and 1-bit flags that fit exactly or spill into an extra byte) and over F_{7^2}: every field element x every flag kind x every flag value: bytes and advertised size; EVERY byte string of the encoded length, one shorter and one longer (<= 2 bytes): decoding outcome, decoded value, flag and bytes consumed (TLC proves Decode.Encode = id and, for field elements, Encode.Decode = id on the specification); every curve point x compressed/uncompressed through affine and rescaled projective serializers and an exact-size buffer",
  "C10": "A: EVERY byte string of length 0..size (<= 2 bytes) offered as compressed / uncompressed encoding with validation on and off, on toy curves with cofactor 1, 2, 4, 8, 18, 20, 36 (so most decodable points lie outside the subgroup) and x-coordinates without a root: error vs Ok, the decoded point, panics; with validation the returned point must be on the curve and in the prime-order subgroup",
@@ -235,6 +247,8 @@ PREDICATES = {"glv_mul_outside_subgroup": _glv_outside}
 HOOK_COMMITS = ["b2d3621", "63ec7b9", "7c991e8"]
 NOT_APPLICABLE = {}
 META = {
+ "C17": {"text": "The abstract value is the table on the Boolean hypercube; evaluation, fixing, relabelling, concatenation and arithmetic are defined on tables from the eq-polynomial sum, and TLC checks on the specification that the table is the restriction of the extension and that fix/relabel commute with evaluation. All transitions of the toy models are replayed on DenseMultilinearExtension and SparseMultilinearExtension (abstracted through the stored map, so to_evaluations itself is under test) and on the multivariate SparsePolynomial.",
+         "note": "Toy fields only (the code is generic); up to 3 variables."},
  "C05": {"text": "The accumulators are modelled as state machines with the flush rule of the code and a history variable; TLC checks conservation and 'finalize returns the history' in every reachable state and every complete behaviour is replayed on ChunkedPippenger / HashMapPippenger of real toy curves (short Weierstrass, twisted Edwards, base field F_{p^2}). One-shot MSMs are defined as sum k_i d_i in Z_r and compared with the group element (sum) * G.",
          "note": "Bases are multiples of the generator with known discrete logarithms. Scalars are canonical field elements (msm_bigint documents that precondition). Full-size MSM (window sizes above 3, lengths 2^10+) is exercised by C14's parallel/serial comparison against the same definition."},
  "C09": {"text": "Codec defines the encodings as total functions between values and byte sequences (size formula, flag placement, sign conventions from the field's order); TLC checks the round-trip and uniqueness theorems on the specification and emits the expected outcome for every value and every byte string of toy configurations; the harness requires the real serializers (all entry points, affine and projective, exact-size buffers) to produce exactly those bytes, sizes, values, flags and consumed lengths.",
